@@ -41,3 +41,4 @@ def run(ctx):
     lib_mem.c_lints(ctx, ctx.program(), scopes.lib_scope("C05"))
     from . import lib_kind5
     lib_kind5.lwt_omit_default(ctx, ctx.program())
+    lib_kind5.schema_raw(ctx, ctx.python())
